@@ -16,8 +16,16 @@
 //
 // Everything else — go, defer, select, chan, map, pointers, closures other than the two of SafeMath, labels, goto,
 // fallthrough, struct values, calls of unknown functions, reads of the dropped parameters (ctx, receiver) … — makes
-// the program FAIL with file:line and the construct; it never skips or guesses.  A statement can be declared
-// effect-only in its spec (`skip`, e.g. event emission): it is then replaced by a Lean comment naming it.
+// the program FAIL with file:line and the construct; it never skips or guesses.  Declarations in a function's spec
+// (trusted, each one leaves a trace in the output):
+//
+//	drop   parameters that are not translated (sdk.Context, ids that only feed state reads); any other use is an error
+//	skip   statement prefixes declared effect-only (event emission): replaced by a Lean COMMENT naming the statement
+//	flat   struct-typed parameter / read variable -> the fields used; each becomes a Lean variable `v_Field`
+//	reads  call prefixes declared state reads ("keeper reads become parameters"): `x, found := k.GetX(ctx, id)` is replaced
+//	       by a comment and x, found become PARAMETERS of the Lean function (a re-assigned variable gets a fresh one)
+//
+// `error` values are translated to Bool ("is not nil"): nil -> false, a package-level error variable -> true.
 package main
 
 import (
